@@ -249,6 +249,24 @@ theorem atomStep_frame (cx : Ctx) (a : Atom) (st : St) :
         exact adv _ n (by simp) (by simp) (by simp) (by omega) (fun hv => bumpHelp_noob _ _ _ _ (by omega))
       · simp only [hc]
         exact triv _
+  | repOne lo hi c =>
+    simp only [atomStep]
+    have hsz : (((windowBytes cx st).take (hi + 1)).takeWhile (· == c)).length ≤ st.endp - st.cur.pos := by
+      have h1 := (List.takeWhile_sublist (l := (windowBytes cx st).take (hi + 1)) (· == c)).length_le
+      have h2 : (windowBytes cx st).length ≤ st.endp - st.cur.pos := by
+        simp only [windowBytes, St.avail, List.length_take]; omega
+      have h3 : ((windowBytes cx st).take (hi + 1)).length ≤ (windowBytes cx st).length := by
+        simp only [List.length_take]; omega
+      omega
+    by_cases h1 : ((windowBytes cx st).take (hi + 1)).length < lo
+    · simp only [h1, if_true]; exact triv _
+    · simp only [h1]
+      by_cases h2 : lo ≤ (((windowBytes cx st).take (hi + 1)).takeWhile (· == c)).length ∧
+          (((windowBytes cx st).take (hi + 1)).takeWhile (· == c)).length ≤ hi
+      · simp only [h2, and_self, if_true]
+        exact adv _ (((windowBytes cx st).take (hi + 1)).takeWhile (· == c)).length (by simp) (by simp) (by simp) (by omega)
+          (fun hv => bumpHelp_noob _ _ _ _ (by omega))
+      · simp only [h2]; exact triv _
   | maxDigits mx =>
     simp only [atomStep]
     have hsz : ((windowBytes cx st).takeWhile isDigitB).length ≤ st.endp - st.cur.pos := by
